@@ -130,6 +130,8 @@ inductive SAct where
   | poll
   | clear
   | rebuild
+  | pollOther
+  | short (r : Range)
 
 def parseAct (s : String) : Option SAct :=
   let k := (s.take 1).toString
@@ -137,6 +139,9 @@ def parseAct (s : String) : Option SAct :=
   else if k = "T" then some .poll
   else if k = "C" then some .clear
   else if k = "B" then some .rebuild
+  else if k = "U" then some .pollOther
+  else if k = "W" then (parseRanges (s.drop 1).toString).map SAct.push   -- `with_buffers`: held before the first call
+  else if k = "X" then (parseRange (s.drop 1).toString).map SAct.short
   else none
 
 def parseSched (s : String) : Option (List SAct) :=
@@ -151,10 +156,20 @@ def showEvent (e : Event (Nat × Nat)) : String :=
   | .error => "E"
 
 structure RdSt where
+  /-- `ParquetMetaDataPushDecoder`: `Data` and `Finished` coincide (`DecodeState::Finished` is set
+  when the metadata is returned) -/
+  md : Bool := false
   d : Dec TabSt
   boundary : Bool := true
   errored : Bool := false
   out : List String := []
+
+def pollWith (m : Mode) (st : RdSt) : RdSt :=
+  let r := poll tabProg m st.d
+  let fin := st.md && (match r.2 with | .emit (.batch _) => true | _ => false)
+  { md := st.md, d := if fin then { r.1 with finished := true } else r.1, out := st.out ++ [showEvent r.2],
+    boundary := (match r.2 with | .emit (.reader _) => true | _ => false),
+    errored := (match r.2 with | .error => true | _ => false) }
 
 /-- the schedule loop of the harness: stop at an error; `B` succeeds exactly at a row-group
 boundary (initially, and right after a reader was handed out) -/
@@ -168,14 +183,15 @@ def rdStep (m : Mode) (st : RdSt) (a : SAct) : RdSt :=
   | .rebuild =>
     if st.boundary && !st.d.finished then { st with out := st.out ++ ["b1"] }
     else { st with out := st.out ++ ["b0"] }
-  | .poll =>
-    let r := poll tabProg m st.d
-    { d := r.1, out := st.out ++ [showEvent r.2],
-      boundary := (match r.2 with | .emit (.reader _) => true | _ => false),
-      errored := (match r.2 with | .error => true | _ => false) }
+  | .short r =>
+    -- a buffer one byte short of its range: `push_range` rejects it and the decoder is left Finished
+    let res := st.d.push [(r, List.replicate (r.stop - r.start - 1) 0)]
+    { st with d := res.1, out := st.out ++ [if res.2 then "x1" else "x0"] }
+  | .poll => pollWith m st
+  | .pollOther => pollWith (match m with | .batch => .reader | .reader => .batch) st
 
-def runRd (m : Mode) (flen : Nat) (phases : List Phase) (sched : List SAct) : String :=
-  let st0 : RdSt := { d := { ctl := { todo := phases, decoding := none, idx := 0 }, buffers := { fileLen := flen } } }
+def runRd (m : Mode) (flen : Nat) (phases : List Phase) (sched : List SAct) (md : Bool := false) : String :=
+  let st0 : RdSt := { md := md, d := { ctl := { todo := phases, decoding := none, idx := 0 }, buffers := { fileLen := flen } } }
   let st := sched.foldl (rdStep m) st0
   -- `buffered_bytes()` at the end (a finished decoder holds nothing)
   let bb := if st.d.finished then 0 else st.d.buffers.bufferedBytes
@@ -224,6 +240,16 @@ def handle (toks : List String) : String :=
     match parseMode mode, parseList (·.toNat?) pend, flen.toNat?, parsePhases phases with
     | some m, some pd, some n, some ps => runAs m (vectored = "1") pd n ps
     | _, _, _, _ => "bad-op"
+  -- the metadata push decoder: same buffer discipline, one range per request, the last phase yields
+  -- the metadata (`D`); it never releases buffers, so `buffered_bytes` is not part of the answer
+  | ["md", _file, _pol, flen, phases, sched] =>
+    match flen.toNat?, parsePhases phases, parseSched sched with
+    | some n, some ps, some sc =>
+      let r := runRd .batch n ps sc true
+      (r.splitOn " bb=").headD r
+    | _, _, _ => "bad-op"
+  -- oracle-only: `into_builder` with changed (row-preserving) options; phases are not predictable
+  | ["rb", _file, _opts, _mode, _sched] => "SKIP"
   -- out-of-domain probe (a cancelled `next_row_group` future): recorded, never compared
   | ["cn", _file, _opts, _k] => "SKIP"
   | _ => "bad-op"
